@@ -30,7 +30,21 @@ SPACES = {
                  dict(nv=3, maxl=4, minl=4, classes=("D", "Us")),
                  dict(nv=2, maxl=6, minl=4, classes=("D", "U"))],
 }
-VCLS = {"plain": (Vertex, Vertex, Vertex, Vertex), "mixed": (Vertex, VA, VB, VA)}
+SPACES["quick"] += engine_g.family_specs(list(range(4, 13)) + [16, 17])
+SPACES["thorough"] += engine_g.family_specs(list(range(4, 13)) + [16, 17, 32, 33, 64, 65])
+
+
+class _Cycle(tuple):
+    """class assignment for any number of vertices (cycles through the given classes)"""
+
+    def __getitem__(self, i):
+        if isinstance(i, slice):
+            n = i.stop if i.stop is not None else len(self)
+            return [tuple.__getitem__(self, k % len(self)) for k in range(n)]
+        return tuple.__getitem__(self, i % len(self))
+
+
+VCLS = {"plain": _Cycle((Vertex,)), "mixed": _Cycle((Vertex, VA, VB, VA))}
 
 
 def options(name):
@@ -73,6 +87,10 @@ REL = re.compile(r"^(\S+) (\S*)--(\S*) (\S+)$")
 
 
 def member_lists(nv):
+    if nv > 4:
+        mid = nv // 2
+        return [tuple(range(nv)), tuple(i for i in range(nv) if i != mid), tuple(range(0, nv, 2)),
+                tuple(reversed(range(nv)))]
     out = [()]
     for n in range(1, nv + 1):
         out += list(itertools.combinations(range(nv), n))
@@ -170,7 +188,7 @@ def per_state(spec, seq, w0):
 
 
 def _plain(spec):
-    return {k: (list(v) if isinstance(v, tuple) else v) for k, v in spec.items() if k != "vclasses"}
+    return {k: (list(v) if isinstance(v, tuple) else v) for k, v in spec.items() if k not in ("vclasses", "explicit")}
 
 
 def replay_single(rec, verbose=False):
